@@ -102,6 +102,20 @@ PROPS['C07'] = {
     'level_text': 'bounded model checking: kernels for every state; prefix protocol for every CX within the bound and every sequence of comparison outcomes',
     'level_note': 'trusted: Kani/CBMC/solver soundness; CX beyond the bound is outside the claim',
 }
+PROPS['C09'] = {
+    'explanation': 'harnesses GENERATED from the regenerated interpreter grammar: for every nonterminal, the action of a symbolically '
+                   'chosen alternative is called with arbitrary argument values of the range its children can produce, in an arbitrary '
+                   'machine state; no implicit check (overflow, shift distance, division, bounds, unwrap) may fail and every returned '
+                   'address is < 2^20.  Kernels are reached through the symbolic kernel tables.',
+    'bounds': 'loop-free (String loops over 1-character names unwound 6 times); label / procedure table with one name, call stack depth <= 2',
+    'outside': 'the LALRPOP parser driver and lexer; numeric leaves that parse digit text (C11/C15); console interrupts (C18) and print (C17) live in the binary crate',
+    'backends': [(r'unary_arithmetic', [('z3', 'cvc5', 'sat-arrays')]), (r'.*', [('z3', 'cvc5'), 'sat-arrays'])],
+    'timeout': {'quick': 600, 'thorough': 1800},
+    'assumptions': ['argument domains: addresses < 2^20 (C04 address_in_range), register values <= 0xFFFF, numbers over their whole type',
+                    'alloc::fmt::format is stubbed (error-message text is not the subject)', 'label table = association list under Kani'],
+    'level_text': 'bounded model checking of every interpreter action for every state: the aborts this property is about (shift by the width, MIN / -1, index arithmetic) occur at isolated values',
+    'level_note': 'trusted: Kani/CBMC/solver soundness; Kani models the dev profile (overflow checks on), release behaviour is observed by replay',
+}
 
 NOT_APPLICABLE = {
     'C13': 'macro definition/use is regex::Regex + a recursive call of the generated parser on heap strings; Kani cannot compile the regex engine or the LALRPOP driver (compiler ICE), and a hand model of the substitution would not be the real code',
